@@ -9,7 +9,7 @@ from ..frontend.pyfront import Repo
 from .common import need_func, need_class, methods, make_eq
 
 LEVEL = 'other'
-TECHNIQUE = 'abstract interpretation of the conversion helpers (py and pyx twins) with polynomial identity testing of f(g(x)) = x and twin agreement (constants compared as exact rationals); ownership lint over the whole package; orbit mutators interpreted on a symbolic orbit object and the resulting stores checked for Kepler consistency, with the real world_signature_to_index interpreted on a star + host + two moons graph'
+TECHNIQUE = 'abstract interpretation of the conversion helpers (py and pyx twins) with polynomial identity testing of f(g(x)) = x and twin agreement (constants compared as exact rationals); ownership lint over the whole package; orbit mutators interpreted on a symbolic orbit object and the resulting stores checked for Kepler consistency, with the real world_signature_to_index interpreted on a star + host + two moons graph; histories in which a mass changes and the same value is sent again (equality short-cuts)'
 LEVEL_TEXT = ('Inverse pairs and twin agreement are exact real-number identities for all positive inputs; the orbit clause is decided for every public mutator path by interpreting the '
               'mutator on a symbolic orbit and checking the three stored Kepler quantities against each other, plus a who-may-write rule over all modules.')
 LEVEL_NOTE = ('Trusted: front-ends, interpreter, real algebra (rounding error of the inverse pairs is not decided). scipy.constants.G is read from the installed scipy source text (external).')
